@@ -15,6 +15,7 @@ CONSTANTS
   KF_UnlockedSizeCheck = TRUE
   TruncNow = FALSE
   NoExpiryTest = FALSE
+  RefusalLeak = FALSE
   Sync = FALSE
   KeepHist = TRUE
   OneGate = TRUE
